@@ -11,7 +11,7 @@ package service
 // producer cursor only grows, never more than `size` ahead of the consumer cursor, and bytes between the two cursors
 // are never overwritten.
 
-//@ property C02 roots (*service).processPublish, (*service).onPublish
+//@ property C02 roots (*service).processPublish, (*service).processIncoming, (*service).processAcked, (*service).onPublish
 //@ property C17 roots (*service).writeMessage, (*stat).increment, (*buffer).WriteTo, (*buffer).ReadPeek, (*buffer).ReadCommit, (*buffer).ReadFrom
 //@ property C17 callers (*buffer).Write, (*buffer).WriteWait, (*buffer).WriteCommit
 //@ property C15 roots (*buffer).Close, (*buffer).Read, (*buffer).ReadPeek, (*buffer).ReadWait, (*buffer).ReadCommit, (*buffer).Write, (*buffer).WriteWait, (*buffer).WriteCommit, (*buffer).waitForWriteSpace, (*buffer).ReadFrom, (*buffer).WriteTo
